@@ -6,7 +6,7 @@ from ..core import Prop, Stream, cfg_prelude, run_workers_parallel, split_chunks
 from ..translate import CMP, TranslateError, const, find_class, find_func, one, parse_file, walk_find
 
 CFG_FIELDS = [("d_stale_handler", "D21"), ("d_no_alias", "D23"), ("d_dup_set", "D26"), ("d_alias_abort", "D120"),
-              ("d_start_order", "D121"), ("d_pending_zombie", "D122"), ("d_limit_kw", "D123")]
+              ("d_start_order", "D121"), ("d_pending_zombie", "D122"), ("d_limit_kw", "D123"), ("d_rt_owner", "D124")]
 
 
 # ------------------------------------------------------------------------------------------------
@@ -218,8 +218,9 @@ def _decl(st):
 
 
 def _q_stmt(st):
-    if st["s"] == "def":
-        return f"(SDef {q.N(st['fn'])} {q.lst(q.N(k) for k in _decl(st))} {SRD[st.get('sr')]})"
+    if st["s"] in ("def", "defrt"):
+        ctor = "SDef" if st["s"] == "def" else "SDefRt"
+        return f"({ctor} {q.N(st['fn'])} {q.lst(q.N(k) for k in _decl(st))} {SRD[st.get('sr')]})"
     return f"(SDel {q.N(st['fn'])})"
 
 
@@ -254,6 +255,8 @@ def _q_kobs(o):
         ow = "None"
     elif own.startswith("file.c") and own[6:].isdigit():
         ow = f"(Some {q.N(int(own[6:]))})"
+    elif "._mk" in own and own.split("._mk")[1].isdigit():
+        ow = f"(Some {q.N(1000 + int(own.split('._mk')[1]))})"   # owned by the evaluation context of maker function _mk<gen>
     else:
         ow = "(Some 999999%N)"
     return f"(mk_kobs {q.boolean(o['has'])} {q.N(o['cnt'])} {ow} {_q_outc(o['r0'])} {_q_outc(o['r1'])})"
@@ -268,7 +271,7 @@ def _mentioned_keys(case):
         bodies += list(op.get("files", {}).values())
     for b in bodies:
         for st in b:
-            if st["s"] == "def":
+            if st["s"] in ("def", "defrt"):
                 ks.update(_decl(st))
     return sorted(ks)
 
@@ -302,7 +305,7 @@ class _Gen:
             return [100 + rng.randrange(self.nfn)]
         return [rng.randint(1, self.nkeys)]
 
-    def stmt(self, bound):
+    def stmt(self, bound, live=False):
         rng = self.rng
         if bound and rng.random() < 0.25:
             f = rng.choice(sorted(bound))
@@ -311,7 +314,8 @@ class _Gen:
         f = rng.randrange(self.nfn)
         bound.add(f)
         sr = rng.choice([None, None, None, "none", "optional", "only"])
-        return {"s": "def", "fn": f, "names": self.names(f), "sr": sr}
+        kind = "defrt" if (live and rng.random() < 0.25) else "def"
+        return {"s": kind, "fn": f, "names": self.names(f), "sr": sr}
 
     def body(self, bound, live):
         rng = self.rng
@@ -324,7 +328,7 @@ class _Gen:
                 bound.add(f)
                 out.append({"s": "def", "fn": f, "names": self.names(f), "sr": rng.choice([None, None, "none", "optional", "only"])})
             return out
-        return [self.stmt(bound) for _ in range(n)]
+        return [self.stmt(bound, live) for _ in range(n)]
 
     def data(self):
         rng = self.rng
@@ -358,7 +362,7 @@ class _Gen:
         for c, b in self.files.items():
             bd = set()
             for st in b:
-                (bd.add if st["s"] == "def" else bd.discard)(st["fn"])
+                (bd.add if st["s"] in ("def", "defrt") else bd.discard)(st["fn"])
             self.bound[c] = bd
         return {"op": "reload_all", "files": files, "data": self.data()}
 
@@ -407,6 +411,13 @@ def directed_cases():
              [{"op": "unload", "ctx": 0, **d}, {"op": "reload_all", "files": {}, **d}, {"op": "unload", "ctx": 1, **d}, {"op": "reload_all", "files": {}, **d}])
         # supports_response matrix
         case({"0": [_def(0, [1], "none"), _def(1, [2], "optional"), _def(2, [3], "only")]}, [{"op": "load", "ctx": 0, "body": [_def(0, [1], "only"), _def(1, [2]), _def(2, [3], "optional")], **d}])
+        # functions created at run time by a running service function (factory pattern): dropped, reloaded, redefined at file level
+        rt = lambda f, names, sr=None: {"s": "defrt", "fn": f, "names": names, "sr": sr}
+        case({"0": [_def(1, [2])]}, [{"op": "exec", "ctx": 0, "body": [rt(0, [1])], **d}, {"op": "exec", "ctx": 0, "body": [{"s": "del", "fn": 0}], **d}])
+        case({"0": [_def(1, [2])]}, [{"op": "exec", "ctx": 0, "body": [rt(0, [1], "optional")], **d}, {"op": "load", "ctx": 0, "body": [_def(1, [2])], **d}])
+        case({"0": []}, [{"op": "exec", "ctx": 0, "body": [rt(0, None)], **d}, {"op": "exec", "ctx": 0, "body": [rt(0, None)], **d}, {"op": "unload", "ctx": 0, **d}])
+        case({"0": [], "1": []}, [{"op": "exec", "ctx": 0, "body": [rt(0, [1])], **d}, {"op": "exec", "ctx": 1, "body": [rt(0, [1])], **d},
+                                   {"op": "exec", "ctx": 0, "body": [_def(1, [1])], **d}, {"op": "exec", "ctx": 0, "body": [{"s": "del", "fn": 0}], **d}])
         # reload with changed content, unload
         case({"0": [_def(0, [1]), _def(1, [2])]}, [{"op": "load", "ctx": 0, "body": [_def(1, [2]), _def(2, [3])], **d}, {"op": "unload", "ctx": 0, **d}])
     return out
@@ -500,7 +511,8 @@ def _q_kwarg(k):
 class OutStream(Stream):
     name = "out"
     rule = ("calls made from a running script through service.call(d, s, **kw), d.s(**kw) and d.entity.s(*args, **kw) to recording "
-            "target services with supports_response none/optional/only: keyword sets mixing free parameters with the control keywords "
+            "target services (HA services and pyscript @service functions of either subsystem) with supports_response none/optional/only; "
+            "the value the script gets back is checked; keyword sets mixing free parameters with the control keywords "
             "context/blocking/return_response/limit given with matching and non-matching value types, 0-2 positional arguments, caller "
             "run by a service call (no task context) or by an event trigger (task context); observed: data received by the target, "
             "call.return_response, arguments reaching hass.services.async_call, exception type in the script; both subsystems; "
@@ -526,6 +538,13 @@ class OutStream(Stream):
                     for val in ((0, 1) if ty == 2 else (3,)):
                         cases.append({"legacy": (key + ty) % 2 == 0, "site": site, "via": "service", "target": "opt", "nargs": 0, "nparams": 1,
                                       "kws": [[40, 4, 7], [key, ty, 0 if ty in (1, 6) else val]]})
+        # script -> pyscript @service function, every response mode x control combination, both subsystems
+        for legacy in (False, True):
+            for site in ("call", "name"):
+                for tgt in ("none", "opt", "only"):
+                    for ctrl in ([], [[3, 2, 1]], [[3, 2, 0]], [[2, 2, 1]], [[2, 2, 0]], [[3, 2, 1], [2, 2, 1]], [[3, 2, 1], [2, 2, 0]]):
+                        cases.append({"legacy": legacy, "site": site, "via": "service", "target": tgt, "tkind": "ps", "nargs": 0, "nparams": 1,
+                                      "kws": [[40, 4, 21]] + ctrl})
         while len(cases) < budget:
             site = rng.choice(["call", "name", "entity"])
             kws = []
@@ -542,7 +561,8 @@ class OutStream(Stream):
                 kws.append([key, ty, val])
             nargs = rng.choice([0, 0, 0, 0, 1, 1, 2]) if site != "call" else 0
             cases.append({"legacy": rng.random() < 0.5, "site": site, "via": rng.choice(["service", "service", "event"]),
-                          "target": rng.choice(["none", "opt", "only"]), "nargs": nargs, "nparams": rng.choice([1, 2]), "kws": kws})
+                          "target": rng.choice(["none", "opt", "only"]), "tkind": "ps" if (site != "entity" and rng.random() < 0.4) else "ha",
+                          "nargs": nargs, "nparams": rng.choice([1, 2]), "kws": kws})
         return cases
 
     def run_impl(self, ctx, cases):
@@ -567,9 +587,17 @@ class OutStream(Stream):
             passed = f"(Some ({q.boolean('context' in kw)}, {q.boolean(kw.get('blocking') is True)}, {q.boolean(kw.get('return_response') is True)}))"
         else:
             passed = "None"
-        return ("{| oc_site := %s; oc_task_ctx := %s; oc_target := %s; oc_nargs := %s; oc_nparams := %s; oc_kws := %s; oc_res := %s; oc_passed := %s |}" % (
-            SITE[case["site"]], q.boolean(case["via"] == "event"), TARGET[case["target"]], q.N(case["nargs"]), q.N(case["nparams"]),
-            q.lst(_q_kwarg(k) for k in case["kws"]), res, passed))
+        ps = case.get("tkind") == "ps"
+        # how HA validates the target: a legacy pyscript function registers the decorator keyword as a plain string, which HA's
+        # `is` tests treat like OPTIONAL
+        target = "SrOpt" if (ps and case["legacy"]) else TARGET[case["target"]]
+        only = case["target"] == "only"
+        got = obs.get("got")
+        ret = "None" if (obs["exc"] or got is None) else f"(Some {q.boolean(bool(got))})"
+        return ("{| oc_site := %s; oc_task_ctx := %s; oc_target := %s; oc_honly := %s; oc_decl_only := %s; oc_nargs := %s; oc_nparams := %s; "
+                "oc_kws := %s; oc_res := %s; oc_passed := %s; oc_ret := %s |}" % (
+                    SITE[case["site"]], q.boolean(case["via"] == "event"), target, q.boolean(only), q.boolean(only), q.N(case["nargs"]),
+                    q.N(case["nparams"]), q.lst(_q_kwarg(k) for k in case["kws"]), res, passed, ret))
 
     def prelude(self, ctx, findings, witness_terms):
         return cfg_prelude(CFG_FIELDS, findings, witness_terms, "ocase_spec_ok")
@@ -580,7 +608,7 @@ class OutStream(Stream):
     def kind(self, case, obs):
         ctrl = sorted({k[0] for k in case["kws"] if k[0] in (1, 2, 3, 4)})
         res = "delivered" if obs["seen"] else (obs["exc"] or "nothing")
-        return f"{case['site']}/{case['target']}/ctrl{''.join(map(str, ctrl))}/args{case['nargs']}/{res}"
+        return f"{case['site']}/{case.get('tkind', 'ha')}-{case['target']}/ctrl{''.join(map(str, ctrl))}/args{case['nargs']}/{res}"
 
     def describe(self, case, obs):
         return {"case": case, "code": obs.get("code"), "exception": obs.get("exc"), "target_saw": obs.get("seen"), "async_call_got": obs.get("passed")}
